@@ -43,10 +43,11 @@ func Run(cfg hx.Config) (*hx.Meta, error) {
 		shapes = cat.Shapes(r, 2, 400)
 		pool = 32
 	} else {
-		shapes = cat.Shapes(r, 1, 60)
+		// quick: every leaf and every depth-1 shape, a seeded slice of the depth-2 shapes, random deeper ones
+		shapes = cat.Shapes(r, 1, 40)
 		d2 := cat.Shapes(r, 2, 0)
 		hx.Shuffle(r, d2)
-		shapes = append(shapes, d2[:150]...)
+		shapes = append(shapes, d2[:120]...)
 	}
 	shapes = ga.Dedup(append(extraTypes(cat), shapes...))
 	var types []*ga.Type
@@ -60,10 +61,6 @@ func Run(cfg hx.Config) (*hx.Meta, error) {
 		default:
 			types = append(types, t)
 		}
-	}
-	if cfg.Tier != "thorough" && len(types) > 110 {
-		// quick: the deterministic part (extra types, leaves, depth 1) first, then a seeded rest
-		types = types[:110]
 	}
 	corpus, err := loadCorpus(cfg.Corpus)
 	if err != nil {
@@ -373,6 +370,9 @@ func extraTypes(c *ga.Catalogue) []*ga.Type {
 		ga.Sl(ga.B("float32")), ga.Sl(ga.B("complex64")), ga.Sl(ga.B("bool")), ga.Sl(ga.B("uint64")), ga.Ar(2, ga.B("float64")),
 		ga.M(ga.B("int"), ga.B("float32")), ga.M(ga.B("string"), ga.B("complex128")), ga.M(ga.B("float64"), ga.B("bool")),
 		ga.P(ga.B("float32")), ga.P(ga.B("complex128")), ga.P(ga.B("uint8")), ga.P(ga.B("bool")),
+		ga.M(ga.B("string"), ga.P(ga.B("int"))), ga.M(ga.B("string"), c.S0), ga.M(ga.B("string"), ga.Sl(ga.B("string"))),
+		ga.M(ga.B("complex128"), ga.P(ga.B("string"))), ga.M(ga.B("int"), c.NStr), ga.M(ga.B("uint8"), c.Rec),
+		ga.M(c.NStr, ga.B("string")), ga.M(c.NF64, ga.B("float64")), ga.M(ga.Ar(2, ga.B("string")), ga.Sl(ga.B("string"))),
 	}
 }
 
